@@ -140,14 +140,20 @@ def setup_recursive_safe_function(
             updated_extras['locals'] = _locals = {'cls': cls} if add_cls else {}
             updated_extras['fn_gen'] = new_fn_gen = FunctionBuilder()
 
+            # The generated function takes a single parameter, `v1`. Evaluate
+            # the type *inside* the function relative to that parameter, and
+            # not to the (possibly nested or indexed) variable of the caller,
+            # e.g. `v2` within a list comprehension, or `v1[0]`.
+            tp_fn = tp.replace(i=1, prefix='v', index=None)
+
             # Apply the decorated function logic
             if fn_name:
                 # Assume `with fn_gen.function(...)` is already handled
-                func(_cls, tp, updated_extras) if _cls else func(tp, updated_extras)
+                func(_cls, tp_fn, updated_extras) if _cls else func(tp_fn, updated_extras)
             else:
                 # Apply `with fn_gen.function(...)` explicitly
                 with new_fn_gen.function(_fn_name, ['v1'], MISSING, _locals):
-                    func(_cls, tp, updated_extras) if _cls else func(tp, updated_extras)
+                    func(_cls, tp_fn, updated_extras) if _cls else func(tp_fn, updated_extras)
 
             # Merge the new FunctionBuilder into the main one
             main_fn_gen |= new_fn_gen
